@@ -27,12 +27,14 @@ const (
 
 // Gen generates operation lists from one PRNG stream.
 type Gen struct {
-	R       *sim.Rand
-	tag     int
-	Alpha   []int // enabled alphabet classes (see Text)
-	Fam     int
-	MaxRows int
-	MaxCols int
+	R *sim.Rand
+	// lastImgCfg is the last picture operation whose configuration object the caller keeps (see opImage)
+	lastImgCfg *sim.Op
+	tag        int
+	Alpha      []int // enabled alphabet classes (see Text)
+	Fam        int
+	MaxRows    int
+	MaxCols    int
 	// constraints keyed by known findings (lane A); false = unconstrained
 	HFOncePerKind     bool // (inactive since the finding hf-duplicate-reference was fixed)
 	hfUsed            map[string]bool
@@ -447,6 +449,17 @@ func (g *Gen) opImage() (sim.Op, bool) {
 	op := sim.Op{K: "img", I: []int{f, r.Range(1, 48), r.Range(1, 48), g.tag*7919 + r.Intn(1000), []int{0, 1, 2, 3, 4, 9}[r.Intn(6)], r.Intn(4), r.Intn(5), r.Intn(4)},
 		F: []float64{float64(r.Range(5, 150)), float64(r.Range(5, 150)), float64(r.Intn(20)), float64(r.Intn(20))},
 		S: []sim.Str{g.str(g.ImageName(f)), g.str(g.PlainText()), g.str(g.PlainText())}}
+	if r.Chance(0.5) {
+		// the size object is kept by the caller and used again whenever the same size is wanted; some pictures ask for the
+		// size of the previous such picture
+		if g.lastImgCfg != nil && r.Chance(0.5) {
+			op.I[4] = g.lastImgCfg.I[4]
+			copy(op.F[0:2], g.lastImgCfg.F[0:2])
+		}
+		op.F = append(op.F, 1)
+		cp := op
+		g.lastImgCfg = &cp
+	}
 	if g.BigImages && r.Chance(0.3) {
 		op.I[0], op.I[1], op.I[2] = 0, r.Range(150, 190), r.Range(150, 190) // PNG noise: about 3 bytes per pixel
 	}
